@@ -31,6 +31,7 @@ const (
 	aWFX   = 22
 	aEVM   = 23
 	aPRE   = 24
+	aESC   = 25 // ICS-20 escrow address of the transfer channel
 	uBase  = 100 // users 100..
 	cOK    = 200 // contract whose code is STOP
 	cBad   = 201 // contract that always reverts
@@ -59,6 +60,7 @@ type World struct {
 	stuck  map[int]bool
 	blockH int64
 	disabledTok map[int]bool
+	ibcSeq      uint64
 	// batches the external chain may still execute, as the protocol sees it (independent of the fxcore store):
 	// requested, not executed, not superseded by an executed higher-nonce batch of the SAME token, not timed out
 	liveBatch []liveBatch
@@ -273,7 +275,8 @@ func NewWorld(c *lib.Chain, sp Spec, hseed int64) *World {
 	w.addr[aWFX] = fx.ERC20.Bytes()
 	w.addr[aEVM] = lib.ModuleAcc("evm")
 	w.addr[aPRE] = crosschaintypes.GetAddress().Bytes()
-	w.Accts = append(w.Accts, aERC20, aIBC, aWFX, aEVM, aPRE)
+	w.addr[aESC] = escrowAddr(ibcChannel)
+	w.Accts = append(w.Accts, aERC20, aIBC, aWFX, aEVM, aPRE, aESC)
 	for range w.Toks {
 		w.deposited = append(w.deposited, new(big.Int))
 		w.executed = append(w.executed, new(big.Int))
